@@ -406,7 +406,10 @@ def differential(prop_id, cases, monitor=None, finding_class=None, nontrivial=No
     impl = run_impl(lines, env=impl_env)
     model = run_model(lines)
     for l, a, b in zip(lines, impl, model):
-        if a is None or b is None or a in ("BADCASE", "EXHAUSTED") or b == "BADCASE" or a.startswith("NO-OUTPUT") or b.startswith("NO-OUTPUT") or b.startswith("MODEL-") or b.startswith("STUCK"):
+        # EXHAUSTED (the implementation asked for more clock readings / replies than the case
+        # provides) is an observation: the generators size every case for the model's behaviour,
+        # so it can only happen when the implementation deviates
+        if a is None or b is None or a == "BADCASE" or b == "BADCASE" or a.startswith("NO-OUTPUT") or b.startswith("NO-OUTPUT") or b.startswith("MODEL-") or b.startswith("STUCK"):
             raise RuntimeError("machinery error on case %r: impl=%r model=%r" % (l, a, b))
     cz = canon if canon is not None else (lambda l, o: o)
     disagree = [i for i in range(len(lines)) if cz(lines[i], impl[i]) != model[i]]
